@@ -41,6 +41,7 @@ structure SGroup where
   raws : List (Option Bytes)        -- `none` = placeholder (E / P), resolved by the harness
   act : Option DataAct := none
   truncate : Bool := false          -- the peer ends the data stream without a TLS close-notify
+  earlyClose : Bool := false        -- the data peer closes its connection (FIN) instead of answering the TLS handshake
   startTls : Bool := false
   reset : Bool := false             -- the data peer ends the connection with a reset (RST) instead of an orderly close
   dataOtherCert : Bool := false     -- the data peer handshakes with the other TLS context (certificate of another CA)
@@ -60,7 +61,7 @@ def parseGroup (s : String) : Option SGroup := do
       | 'c' :: _ => pure ()
       | 'D' :: t =>
         match (String.ofList t).splitOn ":" with
-        | ["send", p, _, e] => let p ← parsePayload p; g := { g with act := some (.send p), truncate := e.startsWith "t", reset := e.startsWith "r", dataOtherCert := e.contains 'b' }
+        | ["send", p, _, e] => let p ← parsePayload p; g := { g with act := some (.send p), truncate := e.startsWith "t", reset := e.startsWith "r", dataOtherCert := e.contains 'b', earlyClose := e.contains 'k' }
         | ["recv", _, e] => g := { g with act := some .recv, reset := e.startsWith "r", dataOtherCert := e.contains 'b' }
         | ["none"] => g := { g with act := some .touch }
         | _ => none
